@@ -158,10 +158,28 @@ def apply_tree(sl):
                 root = real_os.path.join(b, d) if d else b
                 nl = bool(fresh_bool("base%d_%s_%s_ends_with_newline" % (bi, d.replace("/", "_") or "root", f.split(".")[0]))) if f in PLAIN else True
                 content[(root, f)] = "setting{{ x }}: from-base%d-%s" % (bi, f) + ("\n" if nl else "")
+    # two config bases may provide the very same text for a file (a mixin switching a JVM flag back on): it is appended like any other
+    same_text = bool(fresh_bool("second_base_repeats_the_text_of_the_first"))
+    if same_text:
+        for (root, f), c in list(content.items()):
+            if root.startswith(bases[1]) and f in PLAIN:
+                content[(root, f)] = c.replace("from-base1", "from-base0")
     written, copied, dirs = {}, [], []
 
+    class FsPath:
+        """os.path over the model: what has been written exists"""
+
+        def __getattr__(self, name):
+            return getattr(real_os.path, name)
+
+        @staticmethod
+        def exists(p):
+            return p in written or any(c[1] == p for c in copied)
+
+        isfile = exists
+
     class Walk:
-        path = real_os.path
+        path = FsPath()
 
         @staticmethod
         def walk(root):
@@ -182,6 +200,9 @@ def apply_tree(sl):
 
         def write(self, s):
             written.setdefault(self.path, []).append((self.mode, s))
+
+        def read(self):
+            return "".join(s_ for (_, s_) in written.get(self.path, []))
 
         def __enter__(self):
             return self
@@ -210,7 +231,7 @@ def apply_tree(sl):
     for d in DIRS:
         tdir = real_os.path.join(target, d)
         for f in PLAIN[:2]:
-            exp_lines = ["setting1: from-base%d-%s" % (bi, f) for bi, b in enumerate(bases) if f in tree[(b, d)]]
+            exp_lines = ["setting1: from-base%d-%s" % (0 if same_text else bi, f) for bi, b in enumerate(bases) if f in tree[(b, d)]]
             got = written.get(real_os.path.join(tdir, f), [])
             text = "".join(s_ for (_, s_) in got)
             observe("every template is rendered (variables substituted) into the same relative path; snippets of several config bases are appended in "
@@ -220,6 +241,28 @@ def apply_tree(sl):
             observe("binary files are copied verbatim to the same relative path", [c for c in copied if c[1] == real_os.path.join(tdir, f)] == exp)
     observe("nothing else is written", len(written) + len(copied) == len({(d, f) for (b, d), fs in tree.items() for f in fs if f in PLAIN}) + sum(
         1 for fs in tree.values() for f in fs if f in BINARY))
+
+
+def docker_precedence(sl):
+    """Docker provisioning composes its variables like the bare-metal path: car / config-base variables and car parameters are visible to
+    the templates, but Rally's own node variables (names, ports, network host, the bind-mounted paths, cluster settings) are Rally's"""
+    internal = ["cluster_name", "node_name", "network_host", "http_port", "transport_port", "data_paths", "log_path", "heap_dump_path",
+                "install_root_path", "discovery_type", "cluster_settings"]
+    car_vars = {"docker_image": "docker.elastic.co/elasticsearch/elasticsearch", "heap_size": fresh_int("heap_size")}
+    tried = [n for n in internal if bool(fresh_bool("car_defines_%s" % n))]
+    for n in tried:
+        car_vars[n] = "from-the-car"
+    car = team.Car("c", None, ["/team/base0/templates"], car_vars)
+    p = provisioner.DockerProvisioner(car, "rally-node-0", "rally-benchmark", "10.0.0.1", 39200, "/root-dir", "8.0.0", "/rally")
+    own = {"cluster_name": "rally-benchmark", "node_name": "rally-node-0", "network_host": "0.0.0.0", "http_port": "39200", "transport_port": "39300",
+           "data_paths": ["/usr/share/elasticsearch/data"], "log_path": "/var/log/elasticsearch", "heap_dump_path": "/usr/share/elasticsearch/heapdump",
+           "install_root_path": "/usr/share/elasticsearch", "discovery_type": "single-node", "cluster_settings": {}}
+    core.trace("tried", len(tried))
+    core.note("car tries to define", tried)
+    for n in internal:
+        observe("Rally's own variable %s cannot be overridden by the car (Docker)" % n, p.config_vars.get(n) == own[n])
+    observe("other car variables reach the templates", p.config_vars.get("heap_size") is car_vars["heap_size"] and p.config_vars.get("docker_image") == car_vars["docker_image"])
+    observe("the car's own variables are not modified", all(car.variables.get(n) == "from-the-car" for n in tried) and len(car.variables) == len(car_vars))
 
 
 def bare_prepare(sl):
@@ -364,6 +407,9 @@ HARNESSES = [
             bounds={"config bases": "1..3", "plugins": "0..2, each moved to a module or not", "values": "unbounded symbolic integers"},
             assumptions=["plugin variables named like Rally's internal variables are not part of the claim (the statement is about cars; DESIGN §12.2)"],
             doc="prepare applies every config base in order with the composed variables; internal variables and cluster_settings are Rally's own"),
+    Harness("docker_precedence", docker_precedence, "bounded-exhaustive", lambda tier: [{}], reads=READS + [provisioner.DockerProvisioner.__init__],
+            bounds={"internal variables": "every subset of the 11 names the Docker provisioner sets may also be defined by the car"},
+            doc="Docker provisioning: Rally's own node variables win over car variables"),
     Harness("plain_text_kinds", plain_text_kinds, "bounded-exhaustive", lambda tier: [{}], reads=READS, doc="template vs binary by extension"),
     Harness("cleanup", cleanup, "symbolic", lambda tier: [{}], reads=READS, stubs=["os.path.exists / shutil.rmtree over a symbolic set of existing paths"],
             bounds={"data paths": "any subset of 4 candidates incl. one inside the install dir and one sharing its name as a prefix"},
